@@ -543,8 +543,17 @@ def eval_arb(res, world, rng):
         res.count("class/arb_near_threshold")
     outside = abs(gap) > thr
     if stopped is not None:
-        # the statement says nothing about stopped markets: observed, not judged
-        res.count("arb_market_not_running:%s(not judged)" % ("acted" if orders else "no action"))
+        # the statement says nothing about *whether* the agent acts while a market is stopped (observed, not
+        # judged); but whatever it sends has to be the complete hedged basket
+        res.count("arb_market_not_running:%s(decision not judged)" % ("acted" if orders else "no action"))
+        if orders:
+            n_ = len(comps)
+            io_ = [o for o in orders if o.market_id == im.market_id]
+            co_ = [o for o in orders if o.market_id != im.market_id]
+            if not (len(io_) == 1 and len(co_) == n_ and io_[0].volume == n_ * v
+                    and sorted(o.market_id for o in co_) == sorted(c.market_id for c in comps)
+                    and all(o.volume == v and o.is_buy == (not io_[0].is_buy) for o in co_)):
+                res.violation("arb", "arbitrage-basket-is-not-index-n-times-v-against-components-v", wit)
         return
     if not outside:
         res.count("class/arb_inside_threshold")
